@@ -3,6 +3,7 @@ package rules
 import (
 	"fmt"
 	"go/ast"
+	"go/constant"
 	"go/token"
 	"go/types"
 	"sort"
@@ -797,4 +798,61 @@ func e10Consumers(c *core.Ctx, r *core.Report, p *packages.Package, e *e10) {
 			r.Fail("E10.consumer", key, c.Pos(fd.Pos()), "not every element of "+v+" is replaced by its flattening before AddPathEndpoints (which panics on curves)")
 		}
 	}
+}
+
+// E10FlatRestTurningPoint: the flat rest of a quadratic Bézier may still overshoot along its chord.
+func E10FlatRestTurningPoint(c *core.Ctx, r *core.Report) {
+	r.Rule("E10.flat-rest-turning-point", "flattenQuadraticBezier steps by the perpendicular deviation of the control point and leaves its loop when one step covers the rest of the curve. With the control point (nearly) on the line through the end points and beyond one of them, that happens at once although the curve runs past the end point and turns around (`M0 0Q10 0 5 0` reaches x = 6.67). On the path that leaves the loop because the step reaches 1 the function therefore looks at the curve along its chord (a Dot product with p2 − p0) and can emit a vertex; a bare `break` emits only the chord, at any tolerance")
+	p := c.MustPkg("")
+	info := p.TypesInfo
+	fd := core.MustFuncDecl(p, "flattenQuadraticBezier")
+	n := 0
+	ast.Inspect(fd.Body, func(m ast.Node) bool {
+		is, ok := m.(*ast.IfStmt)
+		if !ok || len(is.Body.List) == 0 {
+			return true
+		}
+		if br, ok := is.Body.List[len(is.Body.List)-1].(*ast.BranchStmt); !ok || br.Tok != token.BREAK {
+			return true
+		}
+		be, ok := core.Unparen(is.Cond).(*ast.BinaryExpr)
+		if !ok {
+			return true
+		}
+		one := false
+		for _, side := range []ast.Expr{be.X, be.Y} {
+			if v := core.ConstVal(info, side); v != nil {
+				if f, _ := constant.Float64Val(constant.ToFloat(v)); f == 1.0 {
+					one = true
+				}
+			}
+		}
+		if !one || (be.Op != token.LEQ && be.Op != token.GEQ && be.Op != token.LSS && be.Op != token.GTR) {
+			return true
+		}
+		n++
+		key := fmt.Sprintf("canvas.flattenQuadraticBezier|exit #%d when one step covers the rest", n)
+		dots, emits := false, false
+		ast.Inspect(is.Body, func(k ast.Node) bool {
+			if call, ok := k.(*ast.CallExpr); ok {
+				if f := core.CalleeOf(info, call); f != nil {
+					switch f.Name() {
+					case "Dot":
+						dots = true
+					case "LineTo":
+						emits = true
+					}
+				}
+			}
+			return true
+		})
+		if dots && emits {
+			r.OK("E10.flat-rest-turning-point", key, c.Pos(is.Pos()), "")
+		} else {
+			r.Fail("E10.flat-rest-turning-point", key, c.Pos(is.Pos()), "the loop is left with the chord alone: a control point on the line through the end points and beyond one of them makes the curve overshoot and turn around, and the stretch beyond the end point is lost at any tolerance (`M0 0Q10 0 5 0` → `M0 0L5 0`)")
+		}
+		return true
+	})
+	r.Count("E10.flat-rest-exits", n)
+	r.Floor("E10.flat-rest-exits", 1)
 }
